@@ -252,7 +252,9 @@ func (n *cliNet) deliver(nr *netReq) {
 		if len(b) > 0 {
 			b = b[:len(b)/2]
 		}
-		nr.reply <- &netReply{resp: mkResponse(nr.req, resp.status, resp.ctype, &truncBody{bytes.NewReader(b)})}
+		tr := mkResponse(nr.req, resp.status, resp.ctype, &truncBody{bytes.NewReader(b)})
+		tr.ContentLength = int64(len(resp.body)) // the announced length; the connection drops half way
+		nr.reply <- &netReply{resp: tr}
 		return
 	case "mutate":
 		n.r.Fault("mutated-body")
